@@ -347,7 +347,15 @@ pub fn suite_http(dir: &str, seed: u64, thorough: bool, st: &mut Stats) {
 }
 
 // ---------------------------------------------------------------------------------------------
-pub struct ScriptFile { pub data: Vec<u8>, pub pos: u64, pub sched: Vec<Ev>, pub idx: usize }
+/// An in-memory file with scripted read sizes / Pending and the two-phase seek of `AsyncSeek`: a seek takes effect
+/// only when `poll_complete` returns Ready (which it does after `seek_pending` Pending results); a read issued
+/// before that still sees the old position, and a second `start_seek` in between is refused -- as
+/// `tokio::io::BufReader` and `tokio::fs::File` do.
+pub struct ScriptFile { pub data: Vec<u8>, pub pos: u64, pub sched: Vec<Ev>, pub idx: usize, pub seek_pending: Vec<u8>, pub sidx: usize, pub target: Option<(u64, u8)> }
+
+impl ScriptFile {
+    pub fn new(data: Vec<u8>, sched: Vec<Ev>, seek_pending: Vec<u8>) -> Self { ScriptFile { data, pos: 0, sched, idx: 0, seek_pending, sidx: 0, target: None } }
+}
 
 impl AsyncRead for ScriptFile {
     fn poll_read(mut self: Pin<&mut Self>, cx: &mut Context<'_>, buf: &mut ReadBuf<'_>) -> Poll<std::io::Result<()>> {
@@ -367,10 +375,21 @@ impl AsyncRead for ScriptFile {
 }
 impl AsyncSeek for ScriptFile {
     fn start_seek(mut self: Pin<&mut Self>, p: std::io::SeekFrom) -> std::io::Result<()> {
-        if let std::io::SeekFrom::Start(o) = p { self.pos = o; }
+        if self.target.is_some() {
+            return Err(std::io::Error::new(std::io::ErrorKind::Other, "other file operation is pending, call poll_complete before start_seek"));
+        }
+        let n = if self.sidx < self.seek_pending.len() { self.seek_pending[self.sidx] } else { 0 };
+        self.sidx += 1;
+        if let std::io::SeekFrom::Start(o) = p { self.target = Some((o, n)); }
         Ok(())
     }
-    fn poll_complete(self: Pin<&mut Self>, _cx: &mut Context<'_>) -> Poll<std::io::Result<u64>> { Poll::Ready(Ok(self.pos)) }
+    fn poll_complete(mut self: Pin<&mut Self>, cx: &mut Context<'_>) -> Poll<std::io::Result<u64>> {
+        match self.target {
+            Some((o, n)) if n > 0 => { self.target = Some((o, n - 1)); cx.waker().wake_by_ref(); Poll::Pending }
+            Some((o, _)) => { self.pos = o; self.target = None; Poll::Ready(Ok(o)) }
+            None => Poll::Ready(Ok(self.pos)),
+        }
+    }
 }
 
 pub fn suite_ioread(dir: &str, seed: u64, thorough: bool, st: &mut Stats) {
@@ -387,10 +406,12 @@ pub fn suite_ioread(dir: &str, seed: u64, thorough: bool, st: &mut Stats) {
         let f2 = file.clone();
         let r2: Vec<ChunkOffset> = ranges.iter().map(|(o, s)| ChunkOffset::new(*o, *s)).collect();
         let s2 = sched.clone();
+        // how many times the completion of each seek is Pending
+        let sp2: Vec<u8> = (0..ranges.len() + 2).map(|_| if rng.chance(1, 2) { 0 } else { rng.range(1, 3) as u8 }).collect();
         let r = std::panic::catch_unwind(move || {
             let rt = tokio::runtime::Builder::new_current_thread().build().unwrap();
             rt.block_on(async move {
-                let mut reader = IoReader::new(ScriptFile { data: f2, pos: 0, sched: s2, idx: 0 });
+                let mut reader = IoReader::new(ScriptFile::new(f2, s2, sp2));
                 let mut stt = reader.read_chunks(r2);
                 let mut items: Vec<Result<Vec<u8>, String>> = vec![];
                 while let Some(it) = stt.next().await {
